@@ -174,7 +174,7 @@ impl Gen {
     }
     /// any predicate (may or may not bound the timestamp)
     pub fn extra(&mut self, depth: u32) -> P {
-        match sim::w(if depth > 2 { 3 } else { 7 }) {
+        match sim::w(if depth > 2 { 3 } else { 8 }) {
             0 => P::Label(format!("metric_name = '{}'", ["cpu", "mem", "disk"][sim::w(3) as usize])),
             1 => P::Label(format!("metric_name <> '{}'", ["cpu", "mem"][sim::w(2) as usize])),
             2 => self.cmp(sim::w_bool(50)),
@@ -186,6 +186,12 @@ impl Gen {
             5 => {
                 self.features.push("negation");
                 P::Not(Box::new(self.extra(depth + 1)))
+            }
+            6 => {
+                // value predicates (exercise statistics-based chunk pruning when the catalog carries statistics)
+                self.features.push("value-predicate");
+                let op = ["<", "<=", ">", ">=", "="][sim::w(5) as usize];
+                P::Label(format!("value_i64 {op} {}", sim::w(11)))
             }
             _ => P::Label("id % 2 = 0".to_string()),
         }
